@@ -199,7 +199,10 @@ impl Scenario for CtrWrap {
                     r.map_err(|m| Violation::new("unexpected-panic", i, "update accepted (total length inside the algorithm's domain)", m, format!("{} update of {} bytes with the byte counter at {:#x}{}", name, len, before, if carried { " symptom=panic-while-low-counter-word-wraps" } else { "" })))?;
                     let got = hd.obj.counter();
                     obs.pos((after & u64::MAX as u128) as u64);
-                    if got != after {
+                    // accepted accountings: bytes compressed so far (what the code does today) or bytes fed so far
+                    // (counter advanced on input, buffered tail subtracted at compression time)
+                    let fed = preset.wrapping_add((keyb + hd.log.len()) as u128) & total_mask;
+                    if got != after && got != fed {
                         return Err(Violation::new("counter-invariant", i, format!("{:#x}", after), format!("{:#x}", got), format!("{}: byte counter after update (preset {:#x}, {} bytes fed, keyed={})", name, preset, hd.log.len(), !key.is_empty())));
                     }
                 }
